@@ -130,16 +130,22 @@ func loadFile(sys fs.FS, fname string) (pkgList, error) {
 }
 
 func checkConstraint(s string) (bool, error) {
-	line := strings.Split(strings.TrimSpace(s), "\n")[0]
-	if !constraint.IsGoBuild(line) {
-		return true, nil
-	}
-	expr, err := constraint.Parse(line)
-	if err != nil {
-		return false, err
-	}
 	ok := func(t string) bool { return t == "goat" }
-	return expr.Eval(ok), nil
+	// a constraint may be preceded only by blank lines and other line comments
+	for _, line := range strings.Split(s, "\n") {
+		line = strings.TrimSpace(line)
+		if constraint.IsGoBuild(line) {
+			expr, err := constraint.Parse(line)
+			if err != nil {
+				return false, err
+			}
+			return expr.Eval(ok), nil
+		}
+		if line != "" && !strings.HasPrefix(line, "//") {
+			break
+		}
+	}
+	return true, nil
 
 }
 func rawLoadFile(sys fs.FS, fname string, checkBC bool) (*token, error) {
